@@ -34,10 +34,12 @@ def guiOp (toks : List String) : String :=
     let s2 := if ¬ packed then (match endPdu with | some p => push p.len s1 | none => s1) else s1
     let s2 := if endm = "notify" ∨ endm = "close" then close s2 else s2
     let s3 := run true fuel s2
-    let model := "silent=" ++ showIds s1.delivered ++ " final=" ++ showIds s3.delivered ++ " exit=" ++ (if s3.pc = .done then "yes" else "no")
+    -- input from the GUI thread needs the client mutex: free unless the receive thread sits inside a read
+    let inp := if kv toks "inputs" == some "1" then (if s1.pc = .rd then "blocked" else "ok") else "-"
+    let model := "silent=" ++ showIds s1.delivered ++ " final=" ++ showIds s3.delivered ++ " exit=" ++ (if s3.pc = .done then "yes" else "no") ++ " in=" ++ inp
     -- specification: everything sent is forwarded while the server is silent, and the thread stops
     let all := showIds ((List.range plens.length))
-    let want := "silent=" ++ all ++ " final=" ++ all ++ " exit=yes"
+    let want := "silent=" ++ all ++ " final=" ++ all ++ " exit=yes in=" ++ (if kv toks "inputs" == some "1" then "ok" else "-")
     -- class of the recorded finding: some record is not exactly one PDU
     let bounds := (stream.take (if packed then stream.length else bitmaps.length)).foldl (fun (acc : List Nat × Nat) p => (acc.1 ++ [acc.2 + p.len], acc.2 + p.len)) ([], 0)
     let recEnds := recs.foldl (fun (acc : List Nat × Nat) r => (acc.1 ++ [acc.2 + r], acc.2 + r)) ([], 0)
